@@ -7,7 +7,7 @@ A seeded change counts as caught when the check of its own property (meta.json "
 exits 1 with at least one FAILED obligation; the FAILED lines are printed so that the rule can
 be compared with the seeded mechanism. Equivalent to `git -C /repo apply patch.diff; ./check <id>;
 git -C /repo checkout -- .`, but safe to run in parallel."""
-import sys, os, json, shutil, subprocess, tempfile, argparse, glob, concurrent.futures
+import re, sys, os, json, shutil, subprocess, tempfile, argparse, glob, concurrent.futures
 ENV=dict(os.environ, GOFLAGS='-mod=mod', GOPROXY='off', GOSUMDB='off', GOTOOLCHAIN='local')
 ENV.pop('GOWORK',None)
 PROPS=['C%02d'%i for i in range(1,21)]
@@ -52,7 +52,7 @@ def run(d, allprops):
 ap=argparse.ArgumentParser(); ap.add_argument('-k',default=''); ap.add_argument('-j',type=int,default=4); ap.add_argument('--all-props',action='store_true'); ap.add_argument('--benign',action='store_true',help='run the behaviour-preserving corpus /verif/benign: every check must stay silent'); ap.add_argument('--json',default='',help='write per-change results (status, rules that fired) to this file')
 a=ap.parse_args()
 BENIGN=a.benign
-dirs=sorted(d for d in glob.glob('/verif/benign/*' if a.benign else '/verif/seeded/*') if os.path.exists(os.path.join(d,'patch.diff')) and a.k in d)
+dirs=sorted(d for d in glob.glob('/verif/benign/*' if a.benign else '/verif/seeded/*') if os.path.exists(os.path.join(d,'patch.diff')) and re.search(a.k, d))
 missed=0
 JS=[]
 with concurrent.futures.ThreadPoolExecutor(a.j) as ex:
